@@ -60,7 +60,7 @@ func init() {
 		if !ok {
 			panic(illegalArgumentType(`TypeSet[]`, 0, `Hash`, args[0]))
 		}
-		return newTypeSetType2(ih, ctx.Loader())
+		return newTypeSetType2(ih, ctx.Loader()).(px.ResolvableType).Resolve(ctx)
 	}
 	TypeSetMetaType = MakeObjectType(`Pcore::TypeSet`, AnyMetaType,
 		WrapStringToValueMap(map[string]px.Value{
